@@ -42,7 +42,7 @@ def work(spec):
 
 
 def finish(merged, tier, seed):
-    return {"exhaustive": True, "exhaustive_scope": "all API histories of length %d over an 8-call alphabet on 3 small programs" % (5 if tier == "quick" else 6)}
+    return {"exhaustive": True, "exhaustive_scope": "all API histories of length %d over an 8-call alphabet on 4 small programs (7 in the thorough tier)" % (5 if tier == "quick" else 6)}
 
 
 def replay(case):
